@@ -1,8 +1,7 @@
 /-
   Props/C10Tie.lean — (T) tie of the C10 model to the current typedpy working tree: the isinstance
   answers `extract/trusted.py` reads off the code before every build (`Generated.Trusted.rows`: the
-  whitelist `_valid_classes_for_trusted_deserialization`, the tuple in the Set branch of
-  `_remap_input`, SerializableField / Array / Set / ClassReference / AnyOf membership, and the two
+  whitelist `_valid_classes_for_trusted_deserialization`, SerializableField / Array / Set / ClassReference / AnyOf membership, and the two
   tests of fast serialization) agree, for a sample field of every kind, with the predicates
   Sem/Trusted.lean and Sem/Fast.lean are written with.  Adding a class to a whitelist or changing
   the field class hierarchy makes `whitelist_rows_ok` fail.  Own module because `Generated/` is not
@@ -69,14 +68,19 @@ def rowAgrees (r : Generated.Trusted.Row) : Bool :=
   match sampleDecl r.kind with
   | none => false
   | some f =>
-    r.valid == isValidCls f && r.setScalar == isSetScalar f && r.serializable == isEnumDecl f
+    r.valid == isValidCls f && r.serializable == isEnumDecl f
     && r.array == isArrayD f && r.set == isSetD f && r.classRef == isClassRef f && r.anyOf == isAnyOfK f
     && r.nsb == isNSB f && r.numOrStr == isNumOrStr f
     -- and the classifier's loop body acts on the membership answers as the code does:
     -- valid & serializable → nested, valid → keep, Array/Set of a valid item → keep / nested
-    && (if r.valid then effOf noMappers f == (if r.serializable then .nested else .keep) else true)
-    && (if r.valid then effOf noMappers (arrOf f) == .keep else true)
-    && (if r.valid then effOf noMappers (.setOf false f {}) == .nested else true)
+    && (if r.valid then effOf noMappers true f == (if r.serializable then .nested else .keep) else true)
+    && (if r.valid then effOf noMappers true (arrOf f) == (if r.serializable then .nested else .keep) else true)
+    && (if r.valid then effOf noMappers true (.setOf false f {}) == .nested else true)
+    -- an optional field is classified through its non-None option, in either order
+    && (if r.valid then effOf noMappers true (.anyOf [f, .noneF]) == .nested
+                        && effOf noMappers true (.anyOf [.noneF, f]) == .nested
+        else effOf noMappers true (.anyOf [f, .noneF]) == optEff (effOf noMappers false f)
+             && effOf noMappers true (.anyOf [.noneF, f]) == optEff (effOf noMappers false f))
 
 /-- every row the translator produced from today's source agrees with the model's predicates -/
 theorem whitelist_rows_ok : Generated.Trusted.rows.all rowAgrees = true := by decide
@@ -91,6 +95,7 @@ theorem whitelist_rows_complete :
 /-- the whitelists themselves are the ones the model was written against -/
 theorem whitelist_pinned :
     Generated.Trusted.whitelist = Pinned.Trusted.whitelist
-    ∧ Generated.Trusted.setWhitelist = Pinned.Trusted.setWhitelist := by decide
+    ∧ Generated.Trusted.setWhitelist = Pinned.Trusted.setWhitelist
+    ∧ Generated.Trusted.setWhitelist = [] := by decide
 
 end Typedpy.C10
